@@ -68,6 +68,10 @@ pub fn gen(seed: u64, tier: Tier, k: u64) -> Value {
     if rng.chance(1, 3) {
         common.push(PDef { name: "ref2".into(), kind: PKind::RefTo, col: Col::RefPat(*rng.pick(&pats)) });
     }
+    if rng.chance(1, 2) {
+        // the same kind of reference in a signed column, through a closure word
+        common.push(PDef { name: "sref".into(), kind: PKind::RefToS, col: Col::RefPat(*rng.pick(&pats)) });
+    }
     // sort key distinct from the reference property
     let sort = match rng.below(4) {
         0 => None,
@@ -192,7 +196,7 @@ pub fn run(desc: &Value, ctx: &Ctx) -> CaseOut {
     let mut out = run_dir_case(desc, ctx, &VerifyOpts { prop: "C15", handles: true });
     let case = DirCase::from_json(desc);
     // non-trivial: at least one reference column and >= 2 entries
-    let has_ref = case.stores.iter().any(|s| s.common.iter().any(|p| p.kind == PKind::RefTo));
+    let has_ref = case.stores.iter().any(|s| s.common.iter().any(|p| matches!(p.kind, PKind::RefTo | PKind::RefToS)));
     out.nontrivial = has_ref && case.stores.iter().any(|s| s.n >= 2);
     for s in &case.stores {
         for p in &s.common {
